@@ -404,3 +404,21 @@ def run(ctx) -> None:
         and shapes.flows_from(gate, tv.args[0], lambda e: isinstance(e, ast.Call) and e in gtc2)
     ctx.check("R5", ok_tv, "gate: compared tags are the pattern-valid tags of get_tags(GLOBAL)", "cli._is_valid_version: uniqueness set is not the valid tags of all branches",
               unparse(tv) if tv is not None else "", loc=gate.loc())
+
+
+def pep440_of_tag_rule(ctx, rule: str) -> None:
+    """_update_cfg_from_vcs: the pep440_version that replaces the config value is to_pep440(<the adopted tag>)."""
+    prog = ctx.prog
+    uc = prog.function("cli._update_cfg_from_vcs")
+    ctx.visit(uc.fq)
+    n = 0
+    for v in ast.walk(uc.node):
+        if isinstance(v, ast.Call) and isinstance(v.func, ast.Attribute) and v.func.attr == "_replace" and any(kw.arg == "current_version" for kw in v.keywords):
+            kws = shapes.kwargs_of(v)
+            tagvar = unparse(kws["current_version"])
+            pv = kws.get("pep440_version")
+            ok = pv is not None and shapes.flows_from(uc, pv, lambda e: isinstance(e, ast.Call) and unparse(e.func) == "version.to_pep440" and unparse(e.args[0]) == tagvar)
+            n += 1
+            ctx.check(rule, ok, "_update_cfg_from_vcs: pep440_version = to_pep440(<adopted tag>) - `show` prints the PEP440 form of the version it shows",
+                      "cli._update_cfg_from_vcs: pep440_version is not derived from the adopted tag (show prints a PEP440 value of another version)", unparse(v)[:100], loc=uc.loc(v))
+    ctx.floor(rule, "cfg replacements in _update_cfg_from_vcs", n, 1)
